@@ -278,7 +278,18 @@ func eachDatagram(emit func(xferCase)) {
 	}
 }
 
+// eachSlowProducer: the producer behind Transfer.Out needs a few seconds for the last envelope; the
+// reference receiver reads the Time Signed of every envelope (real time: one case in quick).
+func eachSlowProducer(emit func(xferCase)) {
+	emit(xferCase{Mode: "axfr", Zone: "example.", QID: 4660, Serial: 7, Recs: bodyRecs(2), Sizes: []int{2, 2}, Sender: "libout", Tsig: enumKey, ProducerMs: 2200})
+	if pbt.Thorough() {
+		emit(xferCase{Mode: "ixfr", Zone: "example.", QID: 4661, QSerial: 5, Serial: 7, Sender: "libout", Tsig: enumKey, ProducerMs: 2200,
+			Diffs: []diffSpec{{From: 5, To: 7, Del: bodyRecs(1), Add: bodyRecs(1)}}, Sizes: []int{1, 3, 2}, Rounds: []string{"query", "xfr"}})
+	}
+}
+
 func init() {
+	pbt.RegisterEnum(pbt.Enum[xferCase]{Name: "slow-producer", Each: eachSlowProducer, Check: checkXfer})
 	pbt.RegisterEnum(pbt.Enum[xferCase]{Name: "ixfr-datagram", Each: eachDatagram, Check: checkXfer})
 	pbt.RegisterEnum(pbt.Enum[xferCase]{Name: "paced", Each: eachPaced, Check: checkXfer})
 	pbt.RegisterEnum(pbt.Enum[xferCase]{Name: "exact-size", Each: eachExactSize, Check: checkXfer})
